@@ -43,24 +43,58 @@ def run(repo: Repo, rep: Report, tier: str) -> None:
     cmp = t.ast.test
     ok = isinstance(cmp, ast.Compare) and len(cmp.ops) == 1
     count_var = None
+    count_comp = None  # the comprehension that enumerates what is counted
+
+    def _one_def(name):
+        ds_ = [s_ for s_ in walk_no_nested(fn) if isinstance(s_, ast.Assign) and norm(s_.targets[0]) == name]
+        return ds_[0] if len(ds_) == 1 else None
+
+    def _counted(e):
+        """len(<list comp | name of one>) / sum(1 for ..) / a name bound to one of those -> (list name or None, comprehension)"""
+        if isinstance(e, ast.Name):
+            d_ = _one_def(e.id)
+            if d_ is None:
+                return None
+            if isinstance(d_.value, ast.ListComp):
+                return None  # a list is not a count
+            r_ = _counted(d_.value)
+            return r_
+        if isinstance(e, ast.Call) and dotted(e.func) == "len" and len(e.args) == 1:
+            a_ = e.args[0]
+            if isinstance(a_, ast.ListComp):
+                return (None, a_, None)
+            if isinstance(a_, ast.Name):
+                d_ = _one_def(a_.id)
+                if d_ is not None and isinstance(d_.value, ast.ListComp):
+                    return (a_.id, d_.value, d_)
+            return None
+        if isinstance(e, ast.Call) and dotted(e.func) == "sum" and len(e.args) == 1 and isinstance(e.args[0], (ast.GeneratorExp, ast.ListComp)) and isinstance(e.args[0].elt, ast.Constant) and e.args[0].elt.value == 1:
+            return (None, e.args[0], None)
+        return None
+
+    counted = None
     if ok:
         l, r, op = cmp.left, cmp.comparators[0], cmp.ops[0]
-        if isinstance(op, ast.Gt) and norm(r) == "self.assoc.ae.maximum_associations" and isinstance(l, ast.Call) and dotted(l.func) == "len":
-            count_var = norm(l.args[0])
-        elif isinstance(op, ast.Lt) and norm(l) == "self.assoc.ae.maximum_associations" and isinstance(r, ast.Call) and dotted(r.func) == "len":
-            count_var = norm(r.args[0])
+        if isinstance(op, ast.Gt) and norm(r) == "self.assoc.ae.maximum_associations":
+            counted = _counted(l)
+        elif isinstance(op, ast.Lt) and norm(l) == "self.assoc.ae.maximum_associations":
+            counted = _counted(r)
+    if counted is not None:
+        count_var, count_comp, _cd = counted
+        if count_var is None:
+            count_var = "<count>"
     rep.check(count_var is not None, "comparison", fq, t.ast, "the request must be rejected exactly when the number of live acceptor associations (this one included) is strictly greater than maximum_associations", mod=acse)
     body = [s for s in t.ast.body if isinstance(s, ast.Assign) and norm(s.targets[0]) == "reject_assoc_rsd"]
     triple = tuple(e.value for e in body[0].value.elts) if body and isinstance(body[0].value, ast.Tuple) else None
     rep.check(triple == (2, 3, 2), "reason", fq, f"over the limit -> {triple}", "documented: rejected-transient (2), service-provider presentation (3), local limit exceeded (2)", mod=acse, node=t.ast)
     # ---- population ------------------------------------------------------------------
     if count_var:
-        defs = [s for s in walk_no_nested(fn) if isinstance(s, ast.Assign) and norm(s.targets[0]) == count_var]
-        okp = len(defs) == 1 and isinstance(defs[0].value, ast.ListComp)
+        defs = [s for s in walk_no_nested(fn) if isinstance(s, ast.Assign) and any(x is count_comp for x in ast.walk(s.value))]
+        okp = count_comp is not None
         if okp:
-            lc = defs[0].value
+            lc = count_comp
             g = lc.generators[0]
-            okp = norm(g.iter) == "self.assoc.ae.active_associations" and len(g.ifs) == 1 and norm(g.ifs[0]) == f"{norm(g.target)}.is_acceptor" and norm(lc.elt) == norm(g.target) and len(lc.generators) == 1
+            okp = norm(g.iter) == "self.assoc.ae.active_associations" and len(g.ifs) == 1 and norm(g.ifs[0]) == f"{norm(g.target)}.is_acceptor" and (norm(lc.elt) == norm(g.target) or (isinstance(lc.elt, ast.Constant) and lc.elt.value == 1)) and len(lc.generators) == 1
         rep.check(okp, "population", fq, defs[0] if defs else count_var, "the count must be over *all* acceptor associations of the AE that are alive (established or not): counting only established ones lets concurrent negotiations all pass", mod=acse, node=(defs[0] if defs else fn))
         if defs:
             dn = cfg.node_of(defs[0])
@@ -122,7 +156,7 @@ def run(repo: Repo, rep: Report, tier: str) -> None:
     ci = repo.cls("association", "Association")
     rep.check(any("Thread" in b for b in ci.bases), "population", "association.Association", f"bases {ci.bases}", "an Association must be a Thread, otherwise threading.enumerate() does not list it", mod=assoc, node=ci.node)
     init = ci.methods["__init__"]
-    okt = any(norm(c) == "threading.Thread.__init__(self, target=make_target(self.run_reactor))" for c in walk_no_nested(init) if isinstance(c, ast.Call))
+    okt = any(isinstance(c.func, ast.Attribute) and c.func.attr == "__init__" and ("Thread" in norm(c.func.value) or norm(c.func.value) == "super()") and any(k.arg == "target" and "self.run_reactor" in norm(k.value) for k in c.keywords) for c in walk_no_nested(init) if isinstance(c, ast.Call))
     rep.check(okt, "inside-counted-thread", "association.Association.__init__", "Thread target = self.run_reactor", "the association thread's body must be run_reactor", mod=assoc, node=init)
 
     # ---- dominance ----------------------------------------------------------------------
@@ -168,7 +202,13 @@ def run(repo: Repo, rep: Report, tier: str) -> None:
     tr = repo.mod("transport")
     ca = repo.func("transport", "RequestHandler._create_association")
     hd = repo.func("transport", "RequestHandler.handle")
-    okc = any(norm(s) == "assoc = Association(self.ae, MODE_ACCEPTOR)" for s in walk_no_nested(ca) if isinstance(s, ast.stmt)) and any(norm(s) == "assoc.start()" for s in walk_no_nested(hd) if isinstance(s, ast.stmt))
+    def _acceptor_ctor(c):
+        if not (isinstance(c, ast.Call) and dotted(c.func) == "Association" and c.args and norm(c.args[0]) == "self.ae"):
+            return False
+        mode = c.args[1] if len(c.args) > 1 else next((k.value for k in c.keywords if k.arg == "mode"), None)
+        return mode is not None and norm(mode) == "MODE_ACCEPTOR"
+
+    okc = any(isinstance(s, ast.Assign) and _acceptor_ctor(s.value) for s in walk_no_nested(ca)) and any(isinstance(s, ast.Expr) and isinstance(s.value, ast.Call) and norm(s.value.func).endswith(".start") and not s.value.args for s in walk_no_nested(hd))
     rep.check(okc, "inside-counted-thread", "transport.RequestHandler.handle", "Association(self.ae, MODE_ACCEPTOR) ... assoc.start()", "acceptor associations must be started as threads of the serving AE (run() is never called inline)", mod=tr, node=hd)
     for m in repo.modules.values():
         for c in [x for x in ast.walk(m.tree) if isinstance(x, ast.Call) and isinstance(x.func, ast.Attribute) and x.func.attr == "run_reactor" and "assoc" in norm(x.func.value)]:
